@@ -685,4 +685,38 @@ abbrev FsView := Cand → Option DebugId
 def firstAccepted (fs : FsView) (d : DebugId) (cands : List Cand) : Option Cand :=
   cands.find? fun c => fs c == some d
 
+/-! ## `--unstable-presymbolicate`: the library infos the import registers for the sidecar
+
+`presymbolicate` (samply/src/shared/symbol_precog.rs:334-456) turns every *used* library of the profile it has just
+written into a `wholesym::LibraryInfo` (:346-359), registers it as a known library and loads its symbol map by
+`(debugName, debugId)`. The recorded code id text is parsed with `CodeId::from_str`. Outcome `none` = the import
+panics (after the profile file was written; no sidecar). -/
+
+/-- repaired (`fix:` 4dd060e3, symbol_precog.rs:355-358): `.and_then(|id| CodeId::from_str(id).ok())` — a text that
+does not parse is no code id -/
+def presymCodeId (text : Option Str) : Option (Option CodeId) :=
+  some (text.bind CodeId.fromStr)
+
+/-- before the repair: `.map(|id| CodeId::from_str(id).expect("bad codeid"))` — a text that does not parse panics -/
+def presymCodeIdLegacy (text : Option Str) : Option (Option CodeId) :=
+  match text with
+  | none => some none
+  | some t =>
+    match CodeId.fromStr t with
+    | some c => some (some c)
+    | none => none
+
+/-- symbol_precog.rs:346-359 for one used library; note `name: Some(lib.debug_name)` -/
+def presymLibWith (codeOf : Option Str → Option (Option CodeId)) (l : LibInfo) : Option RLib :=
+  (codeOf l.codeId).map fun c =>
+    { debugName := some l.debugName, debugId := some l.debugId, debugPath := some l.debugPath,
+      name := some l.debugName, codeId := c, path := some l.path, arch := l.arch }
+
+def presymLib : LibInfo → Option RLib := presymLibWith presymCodeId
+def presymLibLegacy : LibInfo → Option RLib := presymLibWith presymCodeIdLegacy
+
+/-- the `lib_stuff` vector of `presymbolicate`: all used libraries, in order; `none` = panic -/
+def presymLibs (p : Profile) : Option (List RLib) := p.usedLibs.mapM presymLib
+def presymLibsLegacy (p : Profile) : Option (List RLib) := p.usedLibs.mapM presymLibLegacy
+
 end LI
